@@ -339,7 +339,8 @@ type opS struct {
 }
 
 type caseS struct {
-	Ops []opS `json:"ops"`
+	Ops     []opS `json:"ops"`
+	Sidecar bool  `json:"sidecar,omitempty"` // metadata kept in the sidecar directory instead of xattrs
 }
 
 var settingVals = map[string][]string{
@@ -375,17 +376,28 @@ func tagsOf(doc string) string {
 	return strings.Join(p, "&")
 }
 
-var engS *gw.InProc
+var engSS = map[bool]*gw.InProc{} // by metadata store: xattr, sidecar
 
 func runS(c caseS) error {
 	if err := setup(); err != nil {
 		return fmt.Errorf("SETUP: %v", err)
 	}
-	if engS == nil {
-		engS = eng
+	if engSS[false] == nil {
+		engSS[false] = eng
 	}
+	if engSS[true] == nil {
+		ne, err := gw.StartInProc(gw.Config{SB: sb, Versioning: true, Sidecar: true})
+		if err != nil {
+			return fmt.Errorf("SETUP: sidecar engine: %v", err)
+		}
+		engSS[true] = ne
+	}
+	engS := engSS[c.Sidecar]
 	runNo++
 	b := fmt.Sprintf("set-%d", runNo)
+	if c.Sidecar {
+		b = fmt.Sprintf("sset-%d", runNo)
+	}
 	cl := s3c.NewClient(engS, gw.DefaultRoot)
 	if r := cl.MustCall("PUT", "/"+b, nil, []s3c.KV{{K: "x-amz-bucket-object-lock-enabled", V: "true"}}, nil); !r.OK() {
 		return fmt.Errorf("SETUP: create: %v", r)
@@ -393,8 +405,14 @@ func runS(c caseS) error {
 	defer func() {
 		os.RemoveAll(filepath.Join(sb.Root, b))
 		os.RemoveAll(filepath.Join(sb.Ver, b))
+		os.RemoveAll(filepath.Join(sb.Sidecar, b))
 	}()
-	model := map[string]string{"ownership": "BucketOwnerEnforced", "versioning": "Enabled"} // as created (lock => versioning enabled)
+	asCreated := func() map[string]string {
+		return map[string]string{"ownership": "BucketOwnerEnforced", "versioning": "Enabled"} // lock => versioning enabled
+	}
+	model := asCreated()
+	recreated := false
+	_ = recreated
 	for i, o := range c.Ops {
 		vals := settingVals[o.Setting]
 		val := vals[o.Val%len(vals)]
@@ -404,11 +422,26 @@ func runS(c caseS) error {
 		switch o.Kind {
 		case "restart":
 			// a second gateway on the same storage takes over (nothing but the storage carries state)
-			ne, err := gw.StartInProc(gw.Config{SB: sb, Versioning: true})
+			ne, err := gw.StartInProc(gw.Config{SB: sb, Versioning: true, Sidecar: c.Sidecar})
 			if err != nil {
 				return fmt.Errorf("SETUP: restart: %v", err)
 			}
 			engS = ne
+			engSS[c.Sidecar] = ne
+		case "recreate":
+			// the (empty) bucket is deleted and created again under the same name: a new bucket, nothing
+			// of what the deleted one was given applies to it
+			if r := cl.MustCall("DELETE", "/"+b, nil, nil, nil); !r.OK() {
+				if r.Status == 409 || r.Status == 403 {
+					continue
+				}
+				return fmt.Errorf("%s: DeleteBucket of the empty bucket answers %v", where, r)
+			}
+			if r := cl.MustCall("PUT", "/"+b, nil, []s3c.KV{{K: "x-amz-bucket-object-lock-enabled", V: "true"}}, nil); !r.OK() {
+				return fmt.Errorf("%s: CreateBucket after DeleteBucket answers %v", where, r)
+			}
+			model = asCreated()
+			recreated = true
 		case "put":
 			var r *s3c.Resp
 			switch o.Setting {
@@ -483,6 +516,9 @@ func runS(c caseS) error {
 				}
 			case "lock":
 				if !has {
+					if recreated && r.OK() && strings.Contains(string(r.Body), "<DefaultRetention>") {
+						return fmt.Errorf("%s: the bucket was created anew without a default retention but GetObjectLockConfiguration answers %q", where, r.Body)
+					}
 					continue
 				}
 				var wc, gc struct {
@@ -497,6 +533,9 @@ func runS(c caseS) error {
 				}
 			case "acl":
 				if !has {
+					if recreated && r.OK() && (strings.Contains(string(r.Body), "<ID>bob</ID>") || strings.Contains(string(r.Body), "<ID>carol</ID>")) {
+						return fmt.Errorf("%s: the bucket was created anew without grants but GetBucketAcl answers %q", where, r.Body)
+					}
 					continue
 				}
 				for _, id := range []string{"bob", "carol"} {
@@ -515,11 +554,11 @@ func runS(c caseS) error {
 func TestC16Settings(t *testing.T) {
 	ev.Check(t, "C16S", func(t *rapid.T) {
 		opg := rapid.Custom(func(t *rapid.T) opS {
-			return opS{Kind: rapid.SampledFrom([]string{"put", "put", "get", "get", "delete", "restart"}).Draw(t, "kind"),
+			return opS{Kind: rapid.SampledFrom([]string{"put", "put", "put", "get", "get", "get", "delete", "restart", "recreate"}).Draw(t, "kind"),
 				Setting: rapid.SampledFrom([]string{"tagging", "policy", "acl", "ownership", "versioning", "lock"}).Draw(t, "setting"),
 				Val:     rapid.IntRange(0, 2).Draw(t, "val")}
 		})
-		c := caseS{Ops: rapid.SliceOfN(opg, 2, 16).Draw(t, "ops")}
+		c := caseS{Ops: rapid.SliceOfN(opg, 2, 16).Draw(t, "ops"), Sidecar: rapid.Bool().Draw(t, "sidecar")}
 		ev.Trace("C16S", c)
 		nt := false
 		written := map[string]bool{}
@@ -531,7 +570,22 @@ func TestC16Settings(t *testing.T) {
 				nt = true
 			}
 		}
-		ev.Case(fmt.Sprintf("S|%+v", c.Ops), nt, "S:program")
+		cls := []string{"S:program", fmt.Sprintf("S:sidecar=%v", c.Sidecar)}
+		stage := 0 // put .. recreate .. get
+		for _, o := range c.Ops {
+			switch {
+			case o.Kind == "put" && stage == 0:
+				stage = 1
+			case o.Kind == "recreate" && stage == 1:
+				stage = 2
+			case o.Kind == "get" && stage == 2:
+				stage = 3
+			}
+		}
+		if stage == 3 {
+			cls = append(cls, "S:put-recreate-get")
+		}
+		ev.Case(fmt.Sprintf("S|%v|%+v", c.Sidecar, c.Ops), nt, cls...)
 		ev.Sample("S", 2, c)
 		if err := runS(c); err != nil {
 			if strings.HasPrefix(err.Error(), "SETUP") {
